@@ -351,7 +351,7 @@ def run(rep: Report, tier: str) -> None:
     # ---- R19.5 one period, one key: every accepted spelling is normalised to the canonical text BEFORE the duplicate check compares texts ----
     rep.rule("R19.5", "every accepted spelling of a Time_Period is normalised to the one canonical text (two spellings of one period must meet in the duplicate-key check)")
     from sa.checks.c21 import spelling_grid
-    spelling_grid(rep, "R19.5", macros, limits)
+    spelling_grid(rep, "R19.5", macros, limits, null_clause=True)
     rep.assumptions = ["DuckDB regexp_matches has search semantics (patterns are anchored explicitly)",
                        "the load regex is applied to the value after vtl_period_normalize (read from _validate_loaded_table)",
                        "DuckDB read_csv with an integral column type rounds fractional literals instead of rejecting them (observed once on the installed DuckDB while writing R19.4)"]
